@@ -184,7 +184,7 @@ def r2(ctx, R):
         R.bad(ocr, ocr.node, "instances keep the old reference", stmt="change_dynsub_refs")
 
 
-@rule("C07.R3", "C07", "FLOW", "an instance replicates its base under the bound arguments", min_instances=10)
+@rule("C07.R3", "C07", "FLOW", "an instance replicates its base under the bound arguments", min_instances=10, also=("C05",))
 def r3(ctx, R):
     """on_eval_formula: base from the formula's result (None -> own base; {'base': S}; 'bases');
     ItemSpaceImpl(parent=self, base=base, refs=refs, arguments=node_get_args(key_to_node(self,
@@ -270,6 +270,29 @@ def r3(ctx, R):
     c = q.calls(ba, name="bind")
     if not c or norm(c[0].func.value) != "self.parent.formula.signature":
         R.bad(ba, ba.node, "arguments are not bound by the parent's parameter signature", stmt="bind")
+    ia = ctx.func("DynamicSpaceImpl._init_allargs")
+    R.inst("_init_allargs: an instance's own arguments come before those of the enclosing instances")
+    mk_ = q.calls(ia, name="ImplChainMap")
+    oka = False
+    if mk_ and len(mk_[0].args) >= 4:
+        alts = q.arms(ia, mk_[0].args[3])
+        oka = bool(alts)
+        # the list must be given whole in each alternative (a list grown by append/extend is not decided here)
+        if any(isinstance(c_, ast.Call) and call_name(c_) in ("append", "extend", "insert") for c_ in walk_local(ia.node)):
+            oka = False
+        for v, g in alts:
+            if not isinstance(v, ast.List):
+                oka = False
+                continue
+            el = [norm(e.value) if isinstance(e, ast.Starred) else norm(e) for e in v.elts]
+            if "self._arguments" in el and "self.parent._allargs.maps" in el and el.index("self._arguments") > el.index("self.parent._allargs.maps"):
+                oka = False
+            if ("isinstance(self, ItemSpaceImpl)", "T") in g and "self._arguments" not in el:
+                oka = False
+    if not oka:
+        R.bad(ia, ia.node, "the lookup order of the argument maps is not (own arguments, then the enclosing instances'): in a "
+                           "parametric space nested in another one with the same parameter name the name binds to the outer argument",
+              stmt="_init_allargs order")
     ci_ = ctx.func("CellsImpl.__init__")
     R.inst("a cells built from a base takes its allow_none setting (as it takes is_cached)")
     ws_ = [st for st, t in q.attr_writes(ci_, attr="allow_none", recv="self") if norm(st.value) == "base.allow_none"]
